@@ -173,6 +173,15 @@ def run(ctx):
                      (f"no Logout stating the reason is sent for defect {name} although the counterparty is identifiable" if want_logout else
                       f"a Logout is sent for defect {name} although the counterparty is not identifiable"), loc(repo.func("AsyncFIXConnection._validate_integrity")))
 
+    # a too-low SequenceReset-GapFill / a too-low message while a resend is awaited is tolerated (no disconnect) but must stay without effect
+    for label, pred in (("too-low GapFill", lambda s: s.kind == "SEQRESET_GF" and s.ord == "LT"),
+                        ("too-low message while a resend is awaited", lambda s: s.state0 == "RESENDREQ_AWAITING" and s.ord == "LT" and s.kind not in ("SEQRESET_RS", "?"))):
+        bad = next((e for e in it.events if pred(e.s) and e.s.integ == "ok" and e.s.state0 not in NOT_UP and e.s.state0 != "?"
+                    and (e.site in ("hook:on_message", "hook:on_logon", "nin_write") or (e.site == "persist" and e.info[1] == "INBOUND"))), None)
+        ctx.instance(R3, f"{label}[no effect]", bad is None,
+                     f"a {label} reaches {bad.site if bad else ''} {bad.info if bad else ''}: an already processed number moves the inbound counter or is delivered again",
+                     loc(bad.node) if bad else "", wit(bad) if bad else [])
+
     # ------------------------------------------------------------------ rule 4
     disconnect_rules(ctx, R4, repo, res)
     # ------------------------------------------------------------------ rule 5
